@@ -6,6 +6,7 @@ mod ds;
 mod c01;
 mod c02;
 mod c04;
+mod file;
 use vhc::*;
 
 fn main() {
@@ -26,6 +27,7 @@ fn main() {
         },
         |prop, out| match prop {
             "C03" => { c03::tables(out); true }
+            "C04" => { c04::tables(out); true }
             _ => false,
         },
     );
